@@ -663,6 +663,7 @@ func ReadFunction(env *Zlisp, name string, args []Sexp) (sx Sexp, err error) {
 		return SexpNull, WrongType
 	}
 	env.parser.ResetAddNewInput(bytes.NewBuffer([]byte(str)))
+	sx = SexpNull // a text without any expression reads as nil, not as a Go nil
 	//exp, err := env.parser.ParseExpression(0)
 	// have to use the iter interface...once.
 	for reply := range env.parser.ParsingIter() {
